@@ -4,6 +4,7 @@ import os
 import time
 
 import z3
+from fractions import Fraction
 
 from vlib import env
 from vlib.zrun import twin_verdict, explore_and_prove, all_eq, concretize, pyrepr, eq_term, wrapper_exc
@@ -46,6 +47,10 @@ m = mass_from_composition(dict(comp))
 exp = sum(v * ref["elements"][k - 1][2] for k, v in comp.items() if k != 0) - comp.get(0, 0) * ref["electron_mass_u"]
 slack = sum(abs(v) * ref["elements"][k - 1][2] * (0.03 if k >= 104 else 5e-4) for k, v in comp.items() if k != 0) + abs(comp.get(0, 0)) * 1e-3 * ref["electron_mass_u"]
 if abs(m - exp) > slack + 1e-12: bad.append("mass_from_composition(%%s) = %%r, reference %%r (tolerance %%g)" %% (comp, m, exp, slack))
+m_neutral = mass_from_composition({k: v for k, v in comp.items() if k != 0})
+dq = comp.get(0, 0)
+if abs((m - m_neutral) + dq * ref["electron_mass_u"]) > abs(dq) * 1e-3 * ref["electron_mass_u"] + 1e-9:
+    bad.append("ion %%s vs neutral parent: masses differ by %%r, expected -q*m_e = %%r" %% (comp, m - m_neutral, -dq * ref["electron_mass_u"]))
 s = Substance("X", composition=dict(comp))
 m1 = s.mass; m2 = s.mass
 if m1 != m2 or s.composition != comp: bad.append("repeated Substance.mass reads differ / composition mutated: %%r %%r %%r" %% (m1, m2, s.composition))
@@ -110,6 +115,7 @@ def task_table():
         # degenerate composition: nothing but a charge (the electron and its multiples) - the mass is -q * m_e
         bare.append((periodic.mass_from_composition({0: q}), Substance.from_formula("e-").mass, Substance("E", composition={0: q}).mass))
         m = periodic.mass_from_composition(dict(comp))
+        neutral.append(periodic.mass_from_composition(dict(n)))
         s = Substance("X", composition=dict(comp))
         m1 = s.mass
         m2 = s.mass
@@ -119,6 +125,7 @@ def task_table():
     parts = {}
     hist_ok = []
     bare = []
+    neutral = []
     hydr_bad = []
     EXPECT = {"Fe": {26: 1}, "H2O": {1: 2, 8: 1}}
 
@@ -148,7 +155,10 @@ def task_table():
         tolq = z3.If(q.t >= 0, q.t, -q.t) * _q(me * 1e-3)
         parts["bare"] = z3.And(lift(mb) + q.t * _q(me) <= tolq, -(lift(mb) + q.t * _q(me)) <= tolq, eq_term(mb2, mb),
                                z3.BoolVal(abs(float(me1) - me) <= 1e-3 * me))
-        return z3.And(parts["value"], parts["reads"], parts["history"], parts["bare"])
+        # an ion differs from its neutral parent by exactly the electron masses (no table tolerance enters this relation)
+        dm = lift(m) - lift(neutral[-1]) + q.t * _q(me)
+        parts["ion"] = z3.And(dm <= tolq, -dm <= tolq)
+        return z3.And(parts["value"], parts["reads"], parts["history"], parts["bare"], parts["ion"])
 
     o = explore_and_prove(run, assum, goal)
     ot = explore_and_prove(run, assum, lambda p: goal(p, True), max_fail=1)
@@ -164,6 +174,13 @@ def task_table():
             if not value_fails or not cc:
                 # the failure concerns repeated reads / mutation of the caller's mapping: exercise it with an ion
                 cc = {0: -2, 16: 1, 8: 4}
+        if p.kind == "exc" and wrapper_exc(p.value):
+            # the code left the symbolic domain on the query with ALL 118 elements at once (e.g. a route taken only by large
+            # compositions): also decide concretely on compositions of that size (soft: reported only if the replay reproduces)
+            for tag, big in (("full", dict([(0, 2)] + [(z_, 1 + z_ % 3) for z_ in range(1, 119)])), ("ion9", {0: 1, 11: 1, 19: 2, 12: 1, 20: 3, 26: 1, 13: 2, 14: 1, 8: 4}),
+                             ("anion12", dict([(0, -3)] + [(z_, 2) for z_ in range(3, 14)]))):
+                res["violations"].append(dict(key="mass:exc-%s" % tag, soft=True, desc="composition with %d entries (charge %s): mass differs from reference" % (len(big), big[0]),
+                                              replay_src=REPLAY % dict(comp=pyrepr(big))))
         res["violations"].append(dict(key="mass:%s" % ("exc" if p.kind == "exc" else "value"), soft=(p.kind == "exc" and wrapper_exc(p.value)),
                                       desc="composition %s: %s" % (cc, "raised %r" % (p.value,) if p.kind == "exc" else "mass differs from reference / repeated reads"),
                                       replay_src=REPLAY % dict(comp=pyrepr(cc))))
@@ -223,8 +240,9 @@ def task_fractions(nsub):
 
     keys = ["S%d" % i for i in range(nsub)]
     coeffs = {k: Real("v_" + k) for k in keys}
-    masses = {k: Real("m_" + k) for k in keys}
-    assum = [v.t > 0 for v in coeffs.values()] + [v.t > 0 for v in masses.values()]
+    lite = nsub > 4   # large mixtures: concrete distinct masses and the plain-dict call only (the query stays within reach of nlsat)
+    masses = {k: (Fraction(3 * i + 2, 2) if lite else Real("m_" + k)) for i, k in enumerate(keys)}
+    assum = [v.t > 0 for v in coeffs.values()] + [v.t > 0 for v in masses.values() if not lite]
 
     kinds = []
 
@@ -233,6 +251,8 @@ def task_fractions(nsub):
         # the substances mapping is given in the reverse order of the stoichiometry (e.g. a ReactionSystem.substances dict)
         subs = OrderedDict((k, Substance(k, composition={1: 1}, data={"mass": masses[k]})) for k in reversed(keys))
         r1 = mass_fractions(dict(coeffs), substances=subs)
+        if lite:
+            return r1, None, None, None, True
         # formula-defined substances (real parser + real table), symbolic coefficients
         f = {"H2O": coeffs[keys[0]], "Fe+3": coeffs[keys[1]]}
         r2 = mass_fractions(dict(f))
@@ -257,6 +277,13 @@ def task_fractions(nsub):
         if p.kind == "exc":
             return False
         r1, r2, r3, r4, kept = p.value
+        if lite:
+            if set(r1) != set(keys):
+                return False
+            tot = sum(coeffs[k] * masses[k] for k in keys)
+            if twin:
+                return eq_term(r1[keys[0]] * tot, coeffs[keys[0]] * masses[keys[0]] * 2)
+            return z3.And(*[eq_term(r1[k] * tot, coeffs[k] * masses[k]) for k in keys])
         if set(r1) != set(keys) or set(r2) != {"H2O", "Fe+3"} or set(r3) != set(keys) or set(r4) != set(keys) or not kept:
             return False
         tot = sum(coeffs[k] * masses[k] for k in keys)
@@ -336,8 +363,12 @@ def tasks(tier, seed):
     ts = [dict(id="C14.table", fn="task_table", kwargs={}, timeout=600),
           dict(id="C14.fractions.2", fn="task_fractions", kwargs=dict(nsub=2), timeout=600),
           dict(id="C14.fractions.3", fn="task_fractions", kwargs=dict(nsub=3), timeout=600),
+          dict(id="C14.fractions.9", fn="task_fractions", kwargs=dict(nsub=9), timeout=1200),
+          dict(id="C14.fractions.16", fn="task_fractions", kwargs=dict(nsub=16), timeout=1200),
           dict(id="C14.periodic_tables", fn="task_periodic_tables", kwargs={}, timeout=60),
           dict(id="C14.lookup", fn="task_lookup", kwargs=dict(tier=tier), timeout=1200)]
     if tier == "thorough":
-        ts.append(dict(id="C14.fractions.4", fn="task_fractions", kwargs=dict(nsub=4), timeout=900))
+        for n_ in range(4, 34):
+            if n_ not in (9, 16):
+                ts.append(dict(id="C14.fractions.%d" % n_, fn="task_fractions", kwargs=dict(nsub=n_), timeout=1800))
     return ts
